@@ -166,6 +166,11 @@ def run(case, ctx):
 
     G, D, M, k, p = (case[x] for x in ("G", "D", "M", "k", "p"))
     ops = [np.asarray(g) for g in rgroup.subgroups(D)[G]]
+    # a group is a set: the order in which its elements are listed must not matter (in particular the identity need not
+    # come first); two of three cases pass a seeded shuffle of the list
+    if case["i"] % 3:
+        order = np.random.default_rng([ctx["seed"], 3, case["i"]]).permutation(len(ops))
+        ops = [ops[int(j)] for j in order]
     key = f"G={G}(|G|={len(ops)}) D={D} M={M} k={k} p={p}"
     viols, evals = [], 0
     _mon.take()
